@@ -27,7 +27,7 @@ def liabilities(I, denom):
     return tot
 
 
-def world(I, weights_at=3):
+def world(I, weights_at=3, owner_choice=False):
     """weights_at: the epoch of the latest weight snapshots -- 3 (long ago) or E + 1 (somebody already acted in the current epoch)"""
     I.set_hint(HINT)
     fm_config(I, fee=coin_v('uom', 1000), max_concurrent=3)
@@ -57,7 +57,9 @@ def world(I, weights_at=3):
     rate3 = I.sym('rate3', lo=1, hi=U128 // 64)
     C3 = I.sym('C3', hi=U128)
     I.assume(C3 <= rate3 * 8)
-    put_farm(I, farm('f-3', 'fowner', LP1, 'uom', simp(rate3 * 8), C3, rate3, 4, 12))
+    # ... or, where the split among farm owners matters (emergency exits), alternatively with a different owner: two owners share the penalty
+    f3_owner = ['fowner', 'fowner3'][I.choose(2, 'f3_owner')] if owner_choice else 'fowner'
+    put_farm(I, farm('f-3', f3_owner, LP1, 'uom', simp(rate3 * 8), C3, rate3, 4, 12))
     wa = I.sym('wa', lo=1, hi=U128 // 64)
     T = I.sym('T', lo=1, hi=U128 // 32)
     wb = I.sym('wb', lo=1, hi=U128 // 64)
@@ -146,7 +148,7 @@ def run(I, ch, b, op, v):
 
 def _ob(op):
     def s(I):
-        b, X, v = world(I)
+        b, X, v = world(I, owner_choice=op.startswith('emergency'))
         ch = Chain(I, CONTRACTS_FM)
         st, _ = run(I, ch, b, op, v)
         I.observe('status', 'ok' if st == 'ok' else 'err')
@@ -180,7 +182,7 @@ def _build(op):
         pos = [('u-a', LP1, m['pa'], 30 * DAY, 'alice', None), ('u-b', LP1, m['pb'], DAY, 'bob', exp_b), ('u-b2', LP1, m['pb2'], DAY, 'bob', None),
                ('u-e1', LP1, m['pe1'], 30 * DAY, 'erin', None), ('u-e2', LP1, m['pe2'], 30 * DAY, 'erin', None)]
         farms = [('f-1', 'fowner', LP1, 'uusd', rate * 8, m['C'], rate, 4, 12), ('f-2', 'fowner2', LP2, LP1, m['F2'], m['C2'], 1, 4, 12),
-                 ('f-3', 'fowner', LP1, 'uom', m['rate3'] * 8, m['C3'], m['rate3'], 4, 12)]
+                 ('f-3', ['fowner', 'fowner3'][ch.get('f3_owner', 0)], LP1, 'uom', m['rate3'] * 8, m['C3'], m['rate3'], 4, 12)]
         liab = {LP1: m['pa'] + m['pb'] + m['pb2'] + m['pe1'] + m['pe2'] + m['F2'] - m['C2'], 'uusd': rate * 8 - m['C'], 'uom': m['rate3'] * 8 - m['C3']}
         mints = [('farm_manager', [(LP1, liab[LP1] + m['X_lp1']), ('uusd', liab['uusd'] + m['X_usd']), ('uom', liab['uom'] + m['X_om'])])]
         d = {'now_s': E * DAY + 5, 'positions': pos, 'farms': farms, 'weights': [(u, LP1, WA(m), w) for u, w in (('alice', m['wa']), ('bob', m['wb']), ('erin', m['we']), ('farm_manager', m['T']))],
